@@ -27,6 +27,10 @@ EXPLANATION = (
     'constructors raise before storing. Not decided: the precise set of exotic values np.isscalar accepts.')
 EXPLANATION_ADDED = (" Changes: plain setattr() is an ordinary (validated) store; (R5) enforcement on assignment is decided by evaluating `obj.field = NEW` through the repository descriptor's __set__ on a complete instance; (R6b) update/|= are all-or-nothing and setdefault follows the dict contract under the mapped key (partial evaluation); (R7) every list-adding method is evaluated with a non-region member (TypeError, list unchanged) and with regions (all stored), and list parameters are materialised before they are validated; (R9) Quantity-valued attributes are stored and handed out by value, so that a rejected augmented assignment leaves the region as it was.")
 EXPLANATION += EXPLANATION_ADDED
+EXPLANATION_ADDED2 = (" (R5b) annulus constructors reject exactly outer <= inner, also across units; (R9b) PixCoord-valued attributes are handed out and stored by value (four by-reference descriptors are a known finding); (R10) only None means 'no metadata given': every region constructor is evaluated with falsy non-dictionary meta=/visual= values and has no completing path that swaps them for an empty RegionMeta/RegionVisual.")
+EXPLANATION += EXPLANATION_ADDED2
+EXPLANATION_ADDED3 = (' (R6b also) update() is probed with the invalid key arriving as a keyword after valid positional or keyword pairs.')
+EXPLANATION += EXPLANATION_ADDED3
 TRUSTED = ['isinstance, np.isscalar, np.isfinite, Quantity.isscalar, unit.physical_type',
            'comparisons with NaN are False (IEEE)', 'data descriptors take precedence over the instance dict']
 ASSUMPTIONS = ['attribute assignment on a region goes through the class descriptors (no __setattr__ override in the package)']
@@ -676,8 +680,13 @@ def r6b(ctx):
     pair."""
     m = ctx.model
     ci = m.cls('Meta')
-    probes = [({'label': 'x', 'bogus': 'y'}, None), ({'bogus': 'y', 'label': 'x'}, None),
-              ({'label': 'x', 'text': 't'}, [("'label'", "'x'"), ("'text'", "'t'")])]
+    probes = [({'label': 'x', 'bogus': 'y'}, {}, None), ({'bogus': 'y', 'label': 'x'}, {}, None),
+              ({'label': 'x', 'text': 't'}, {}, [("'label'", "'x'"), ("'text'", "'t'")]),
+              # keyword forms of update(): the invalid key may arrive as a keyword after valid positional / keyword pairs
+              (None, {'label': 'x', 'bogus': 'y'}, None), (None, {'bogus': 'y', 'label': 'x'}, None),
+              ({'label': 'x'}, {'bogus': 'y'}, None), ({'bogus': 'y'}, {'label': 'x'}, None),
+              ({'label': 'x'}, {'text': 't'}, [("'label'", "'x'"), ("'text'", "'t'")]),
+              (None, {'label': 'x', 'text': 't'}, [("'label'", "'x'"), ("'text'", "'t'")])]
     for name in ('update', '__ior__', 'setdefault'):
         f = ci.methods.get(name)
         if f is None:
@@ -712,23 +721,27 @@ def r6b(ctx):
                 ctx.ok(f'Meta.{name}', 'stores (mapped key, value) exactly when the key is absent; returns the entry')
             continue
         probs = []
-        for other, want in probes:
+        for other, kws, want in probes:
+            if name != 'update' and (kws or other is None):
+                continue
             rec = []
             ev = Evaluator(m, hooks={'super:__setitem__': lambda e, a, k, rec=rec: (rec.append((show(a[1]), show(a[2]))), Const(None))[1]})
             o = Obj('RegionMeta', {}, 'self', m.cls('RegionMeta'))
             from ..vg import DictV
-            out = ev.run(f, [o, DictV([{k: Const(v) for k, v in other.items()}])], {})
+            out = ev.run(f, [o] + ([] if other is None else [DictV([{k: Const(v) for k, v in other.items()}])]),
+                         {k: Const(v) for k, v in kws.items()})
+            call = ', '.join(([repr(other)] if other is not None else []) + [f'{k}={v!r}' for k, v in kws.items()])
             definite = [n for pc, n, _ in out.raises if not [c for c in pc if not (isinstance(c, Const) and c.v is True)]]
             if any(pc for pc, n, _ in out.raises if n and [c for c in pc if not isinstance(c, Const)]):
                 raise AnalysisError('C17.R6b', f'Meta.{name}', 'not reducible on a constant dictionary')
             if want is None:
                 if rec:
-                    probs.append(f'{name}({other}) stores {rec} before the invalid key is rejected: a rejected operation '
+                    probs.append(f'{name}({call}) stores {rec} before the invalid key is rejected: a rejected operation '
                                  'does not leave the object as it was (validate every key before the first insertion)')
                 elif 'KeyError' not in definite:
-                    probs.append(f'{name}({other}) does not raise KeyError for the invalid key')
+                    probs.append(f'{name}({call}) does not raise KeyError for the invalid key')
             elif rec != want or definite:
-                probs.append(f'{name}({other}) stores {rec} / raises {definite}; expected {want}')
+                probs.append(f'{name}({call}) stores {rec} / raises {definite}; expected {want}')
         if probs:
             ctx.bad(f'Meta.{name}', 'partial-update', probs[0], f.loc())
         else:
